@@ -1017,8 +1017,8 @@ Inductive stmt :=
 | SEcho (e : expr)
 | SAssign (x : str) (e : expr)
 | SCapture (x : str) (body : list stmt)
-| SIf (c : expr) (t : list stmt) (f : option (list stmt))
-| SUnless (c : expr) (t : list stmt) (f : option (list stmt))
+| SIf (c : expr) (t : list stmt) (elifs : list (expr * list stmt)) (f : option (list stmt))
+| SUnless (c : expr) (t : list stmt) (elifs : list (expr * list stmt)) (f : option (list stmt))
 | SCase (e : expr) (whens : list (list expr * list stmt)) (dflt : option (list stmt))
 | SFor (x : str) (it : expr) (limit : option expr)
        (body : list stmt) (dflt : option (list stmt)).
@@ -1034,7 +1034,11 @@ Fixpoint blank_stmt (s : stmt) : bool :=
   | SOutput _ | SEcho _ => false
   | SAssign _ _ => true
   | SCapture _ _ => true
-  | SIf _ t f | SUnless _ t f => blank_block t && blank_opt f
+  | SIf _ t alts f | SUnless _ t alts f =>
+      blank_block t
+      && (fix ba (a : list (expr * list stmt)) : bool :=
+            match a with [] => true | (_, b) :: r => blank_block b && ba r end) alts
+      && blank_opt f
   | SCase _ whens d =>
       (fix bw (w : list (list expr * list stmt)) : bool :=
          match w with [] => true | (_, b) :: t => blank_block b && bw t end) whens
@@ -1077,7 +1081,20 @@ Definition run_block (ex : blockT) : blockT := fun c b =>
 Definition opt_run (blk : blockT) (c : ctx) (o : option (list stmt)) : res (ctx * str) :=
   match o with Some b => blk c b | None => Ok (c, []) end.
 
-(** _AnyExpression.evaluate: any(_eq(left, right.evaluate(context)) ...). *)
+(** IfNode / UnlessNode.render_to_output after a false first condition: the
+    [elsif] conditions are evaluated in order, only until the first true one;
+    the [else] block only if none is. *)
+Fixpoint elif_go (pol : upolicy) (ev : evalT) (blk : blockT) (c : ctx)
+    (alts : list (expr * list stmt)) (e : option (list stmt)) : res (ctx * str) :=
+  match alts with
+  | [] => opt_run blk c e
+  | (cnd, b) :: rest =>
+      do v <- ev c cnd;; do t <- is_truthy pol v;;
+      if t then blk c b else elif_go pol ev blk c rest e
+  end.
+
+(** _AnyExpression.evaluate: any(_eq(left, right.evaluate(context)) ...):
+    lazily, the values after the first match are not evaluated. *)
 Fixpoint case_any (pol : upolicy) (ev : expr -> res val) (lv : val) (es : list expr) : res bool :=
   match es with
   | [] => Ok false
@@ -1119,12 +1136,12 @@ Definition exec_stmt (pol : upolicy) (ev : evalT) (blk : blockT) (c : ctx) (s : 
   | SAssign x e => do v <- ev c e;; Ok (set_local c x v, [])
   | SCapture x body =>
       do r <- blk c body;; Ok (set_local (fst r) x (VStr (snd r)), [])
-  | SIf cnd t e =>
+  | SIf cnd t alts e =>
       do v <- ev c cnd;; do b <- is_truthy pol v;;
-      if b then blk c t else opt_run blk c e
-  | SUnless cnd t e =>
+      if b then blk c t else elif_go pol ev blk c alts e
+  | SUnless cnd t alts e =>
       do v <- ev c cnd;; do b <- is_truthy pol v;;
-      if negb b then blk c t else opt_run blk c e
+      if negb b then blk c t else elif_go pol ev blk c alts e
   | SCase e whens d =>
       do r <- case_go pol ev blk e whens c [] false;;
       if snd r then Ok (fst r)
@@ -1234,7 +1251,11 @@ Fixpoint roots_st (s : stmt) : list str :=
   | SText _ => []
   | SOutput e | SEcho e | SAssign _ e => roots_e e
   | SCapture _ b => rb b
-  | SIf c t f | SUnless c t f => roots_e c ++ rb t ++ ro f
+  | SIf c t alts f | SUnless c t alts f =>
+      roots_e c ++ rb t ++
+      (fix ra (a : list (expr * list stmt)) : list str :=
+         match a with [] => [] | (e, b) :: r => roots_e e ++ rb b ++ ra r end) alts
+      ++ ro f
   | SCase e ws d =>
       roots_e e ++
       (fix rw (w : list (list expr * list stmt)) : list str :=
